@@ -489,5 +489,5 @@ fn slider_node_banks() {
     core::mem::forget(st);
 }
 
-// @verif property=EXP tier=quick timeout=3000 mem=32 bounds="slider line '$a,$b,1000,2,2,L|200:100,2,100,2|2|2,,2:3:0:0:' (concrete apart from the position): node sample sets inherit the slider's banks"
+// @verif property=C14 tier=thorough timeout=3000 mem=32 bounds="slider line '$a,$b,1000,2,2,L|200:100,2,100,2|2|2,,2:3:0:0:' (concrete apart from the position): node sample sets inherit the slider's banks"
 oracle_proof!(c14_slider_node_banks, 48, slider_node_banks());
